@@ -9,3 +9,16 @@ package hashing
 //@ func IsValidModelMultihash
 //@   trusted
 //@   ensures (result == nil) == validMH(model, modelMultihash)
+
+//@ spec computedWith(mh string, codes []uint) bool
+//@ func IsComputedUsingMultihashAlgorithms
+//@   trusted
+//@   ensures result == computedWith(encodedMultihash, codes)
+//
+//@ spec mhCodeOK(mh string) bool
+//@ spec mhCodeOf(mh string) uint64
+//@ func GetMultihashCode
+//@   trusted
+//@   results code, err
+//@   ensures (err == nil) == mhCodeOK(encodedMultihash)
+//@   ensures err == nil ==> code == mhCodeOf(encodedMultihash)
